@@ -239,3 +239,105 @@ pub fn hash_keys(lower: &str) -> (u64, u32) {
     let (name, folder) = split_hash(lower);
     (((folder as u64) << 32) | name as u64, full_hash(lower))
 }
+
+/// The second way an install comes into being: every index and dat file that `build_install`
+/// wrote is taken off the disk again and a patch is composed that re-creates it the way retail
+/// patches do — dat files by `A` commands at block offsets behind the two header KiB and two `H`
+/// commands for those, index files by an `F` AddFile with blank header KiB and two `H` commands.
+/// `A` and `H` name their target by category, expansion, chunk, file number and the platform of
+/// the last `T`, i.e. through the patcher's own naming; the reader then has to open those names.
+/// Returns the chunks and what every file has to hold after the application.
+pub fn take_apart_into_patch(
+    fs: &SimFs,
+    spec: &InstallSpec,
+    piece_seed: u64,
+) -> (Vec<crate::formats::zipatch::Chunk>, Vec<(String, Vec<u8>)>) {
+    use crate::formats::zipatch::{Chunk, FileBlock};
+    use crate::formats::Bytes;
+    let hex = |b: &[u8]| -> Bytes {
+        let mut s = String::with_capacity(b.len() * 2);
+        for x in b {
+            s.push_str(&format!("{:02x}", x));
+        }
+        Bytes::Hex(s)
+    };
+    let mut r = crate::rng::Rng::derive(piece_seed, 0xA9A7);
+    let mut chunks = vec![
+        Chunk::Fhdr3 { kind: "DIFF".into(), counters: vec![0; 8] },
+        Chunk::Target { platform: spec.platform as u16, region: -1, debug: false, version: 0, deleted: 0, seek: 0 },
+    ];
+    let mut expect = vec![];
+    for repo in &spec.repos {
+        let folder = repo_folder(repo.exp);
+        let dir = format!("{}/sqpack/{}", GAME, folder);
+        for pack in &repo.packs {
+            let stem = file_stem(pack.cat, repo.exp, pack.chunk, spec.platform);
+            let main = pack.cat as u16;
+            let sub = ((repo.exp as u16) << 8) | pack.chunk as u16;
+            for (suffix, file_no) in [(".index", 0u32), (".index2", 2u32)] {
+                let p = format!("{}/{}{}", dir, stem, suffix);
+                let Some(orig) = fs.h_read(&p) else { continue };
+                fs.h_remove(&p);
+                let mut blank = orig.clone();
+                for b in blank.iter_mut().take(2048) {
+                    *b = 0;
+                }
+                // AddFile blocks of 1..16000 bytes
+                let mut blocks = vec![];
+                let mut at = 0;
+                while at < blank.len() {
+                    let n = (1 + r.log_size(15_999) as usize).min(blank.len() - at);
+                    blocks.push(FileBlock {
+                        data: hex(&blank[at..at + n]),
+                        mode: if r.chance(1, 2) { Mode::Raw } else { Mode::Miniz(6) },
+                    });
+                    at += n;
+                }
+                chunks.push(Chunk::AddFile {
+                    path: format!("sqpack/{}/{}{}", folder, stem, suffix),
+                    offset: 0,
+                    expansion: repo.exp as u16,
+                    blocks,
+                });
+                chunks.push(Chunk::HeaderUpdate { index: true, kind: 'V', main, sub, file: file_no, data: hex(&orig[..1024]) });
+                chunks.push(Chunk::HeaderUpdate { index: true, kind: 'I', main, sub, file: file_no, data: hex(&orig[1024..2048]) });
+                expect.push((p, orig));
+            }
+            for id in 0u32..8 {
+                let p = format!("{}/{}.dat{}", dir, stem, id);
+                let Some(mut orig) = fs.h_read(&p) else { continue };
+                fs.h_remove(&p);
+                // `A` carries whole 128-byte blocks
+                while orig.len() % 128 != 0 || orig.len() < 2048 {
+                    orig.push(0);
+                }
+                // the body first (in pieces, not necessarily in ascending order), the headers last
+                let mut pieces = vec![];
+                let mut at = 2048;
+                while at < orig.len() {
+                    let blocks = (1 + r.log_size(63) as usize).min((orig.len() - at) / 128);
+                    pieces.push((at, blocks * 128));
+                    at += blocks * 128;
+                }
+                if r.chance(1, 2) {
+                    pieces.reverse();
+                }
+                for (at, n) in pieces {
+                    chunks.push(Chunk::AddData {
+                        main,
+                        sub,
+                        file: id,
+                        block_offset: (at / 128) as u32,
+                        data: hex(&orig[at..at + n]),
+                        delete_blocks: 0,
+                    });
+                }
+                chunks.push(Chunk::HeaderUpdate { index: false, kind: 'V', main, sub, file: id, data: hex(&orig[..1024]) });
+                chunks.push(Chunk::HeaderUpdate { index: false, kind: 'D', main, sub, file: id, data: hex(&orig[1024..2048]) });
+                expect.push((p, orig));
+            }
+        }
+    }
+    chunks.push(Chunk::Eof);
+    (chunks, expect)
+}
